@@ -260,6 +260,18 @@ def run_shard(spec, ctx, acc):
         n = 6 if tier == "quick" else 100
         for ti in spec["targets"]:
             t = targets[ti]
+            if catalog.has_ch(t.defn) and len(t.defn) == 1:
+                # variable-length text message: the keyword is the text (valid UTF-8 text)
+                (fname, _typ), = t.defn.items()
+                base = {"kind": "kw", "mode": t.mode, "clsid": t.clsid, "defname": t.defname}
+                txt = st.one_of(st.text(min_size=1, max_size=40),
+                                st.text(alphabet="abc °é€ß中", min_size=1, max_size=20))
+                strat = st.tuples(txt, st.sampled_from([1, 0])).map(
+                    lambda tb: dict(base, bf=tb[1], subset=None,
+                                    nodes=[["f", fname, "CH", None, tb[0].encode("utf-8")]]))
+                core.hyp_search(acc, strat, check, seed=core.derive(ctx["seed"], PROP, "CH", t.label),
+                                max_examples=40 if tier == "quick" else 600, known=known, rounds=2)
+                continue
             if not c16.kw_constructible(t):
                 acc.skipped["not-kw-constructible-by-rule"] += 1
                 continue
